@@ -20,6 +20,7 @@ import (
 	"fmt"
 	"math/rand"
 	"os"
+	"path/filepath"
 	"sort"
 	"strings"
 	"sync"
@@ -363,6 +364,43 @@ func (ct *corpusT) close() {
 	}
 }
 
+var errCorpusJudged = fmt.Errorf("corpus rejected by a reported violation")
+
+// matchAllNotIncreasing runs a real match_all searcher with Next until it is
+// exhausted and returns a description of the first result whose internal id is
+// not greater than its predecessor's ("" when all increase strictly).
+func matchAllNotIncreasing(idx bleve.Index) string {
+	adv, err := idx.Advanced()
+	if err != nil {
+		return ""
+	}
+	rd, err := adv.Reader()
+	if err != nil {
+		return ""
+	}
+	defer rd.Close()
+	s, err := query.NewMatchAllQuery().Searcher(context.Background(), rd, idx.Mapping(), search.SearcherOptions{})
+	if err != nil {
+		return ""
+	}
+	defer s.Close()
+	sctx := &search.SearchContext{DocumentMatchPool: search.NewDocumentMatchPool(s.DocumentMatchPoolSize()+64, 0)}
+	var prev index.IndexInternalID
+	for n := 0; n < 1<<20; n++ {
+		id, err := callNext(s, sctx)
+		if err != nil || id == nil {
+			return ""
+		}
+		if prev != nil && prev.Compare(id) >= 0 {
+			pe, _ := rd.ExternalID(prev)
+			ce, _ := rd.ExternalID(id)
+			return fmt.Sprintf("result %d has internal id %v (document %q) after %v (document %q)", n, []byte(id), ce, []byte(prev), pe)
+		}
+		prev = id
+	}
+	return ""
+}
+
 func liveOf(h qs.History) map[int]*qs.Doc {
 	live := map[int]*qs.Doc{}
 	for _, b := range h {
@@ -399,8 +437,31 @@ func buildCorpus(c *core.Ctx, seed int64, hist qs.History, nids int) (*corpusT, 
 		if err := qs.ApplyMerging(idx, hist, r, mergeAfter); err != nil {
 			return nil, err
 		}
+		if eng == qs.EngScorchMerged && uint64(seed)%3 != 1 {
+			// the searchers then run over the snapshot rebuilt from disk (a restart):
+			// a merged segment followed by the later batches' segments, with their deletions
+			if err := idx.Close(); err != nil {
+				return nil, err
+			}
+			idx, err = bleve.OpenUsing(filepath.Join(dir, "idx"), map[string]interface{}{
+				"scorchMergePlanOptions": map[string]interface{}{"FloorSegmentSize": 1}})
+			if err != nil {
+				return nil, fmt.Errorf("reopen: %v", err)
+			}
+			ct.idx[eng] = idx
+		}
 		e, err := newEnv(eng, idx, nids)
 		if err != nil {
+			if strings.Contains(err.Error(), "not strictly ascending") {
+				// the id walk the harness ranks documents with is what a match-all searcher
+				// returns: judge it through the searcher itself
+				if what := matchAllNotIncreasing(idx); what != "" {
+					c.Violation("next-not-increasing(match_all)/"+eng, "a match_all searcher driven by Next alone over the index built from the history: "+what,
+						map[string]any{"kind": "corpus", "seed": seed, "history": hist, "engine": eng, "nids": nids})
+					ct.close()
+					return nil, errCorpusJudged
+				}
+			}
 			return nil, err
 		}
 		ct.envs[eng] = e
@@ -608,6 +669,9 @@ func engineB(c *core.Ctx) error {
 						}
 					}
 					ct, err := buildCorpus(c, seed, h, nids)
+					if err == errCorpusJudged {
+						continue
+					}
 					if err != nil {
 						mu.Lock()
 						if firstErr == nil {
@@ -1173,6 +1237,7 @@ func replay(c *core.Ctx, path string) error {
 			Seed     int64      `json:"corpus_seed"`
 			History  qs.History `json:"history"`
 			Engine   string     `json:"engine"`
+			NIDs     int        `json:"nids"`
 			Options  optsT      `json:"options"`
 			Heap     int        `json:"heap_takeover"`
 			Query    *qs.Node   `json:"query"`
@@ -1190,6 +1255,15 @@ func replay(c *core.Ctx, path string) error {
 		}
 		return modelFindingQ2(c)
 	case "engineB":
+	case "corpus":
+		ct, err := buildCorpus(c, f.Replay.Seed, f.Replay.History, f.Replay.NIDs)
+		if err == errCorpusJudged {
+			return nil
+		}
+		if err == nil {
+			ct.close()
+		}
+		return err
 	default:
 		return fmt.Errorf("replay of kind %q: re-run the check (engine A cases are enumerated deterministically by TLC)", f.Replay.Kind)
 	}
